@@ -1502,3 +1502,27 @@ canary('c08-generic-swap', 'C08', 'crates/edp_client/src/control.rs', """       
                 OwnedTerm::Tuple(fields)""", 'Generic:reorders')
 canary('c05-empty-write-skipped', 'C05', 'crates/edp_client/src/transport.rs', "    pub async fn write(&mut self, data: &[u8]) -> Result<()> {\n", "    pub async fn write(&mut self, data: &[u8]) -> Result<()> {\n        if data.is_empty() {\n            return Ok(());\n        }\n", 'success-path-writes-nothing')
 canary('c04-complement-skipped', 'C04', 'crates/edp_client/src/state_machine.rs', "        let high_flags = (flags_u64 >> 32) as u32;\n", "        let high_flags = (flags_u64 >> 32) as u32;\n        if high_flags == 0 {\n            return Ok(Vec::new());\n        }\n", 'success-path-writes-nothing')
+_FF_OLD1 = """    let long_atoms_flag_byte = flags[flags_len - 1];
+    let long_atoms_mask = if num_atom_cache_refs % 2 == 0 {
+        0x01
+    } else {
+        0x10
+    };
+    let long_atoms = (long_atoms_flag_byte & long_atoms_mask) != 0;
+"""
+_FF_NEW1 = """    let flag_field = |k: usize| -> u8 {
+        let byte = flags[k / 2];
+        if k %% 2 == 0 { byte & 0x0F } else { byte >> 4 }
+    };
+    let long_atoms = (flag_field(%s) & 0x01) != 0;
+"""
+_FF_OLD2 = """        let flag_byte_index = i as usize / 2;
+        let flag_nibble = if i % 2 == 0 {
+            flags[flag_byte_index] & 0x0F
+        } else {
+            (flags[flag_byte_index] >> 4) & 0x0F
+        };
+"""
+_FF_NEW2 = "        let flag_nibble = flag_field(i as usize);\n"
+benign('benign-c14-flag-field-accessor', 'C14', DEC, _FF_OLD1, _FF_NEW1 % 'num_atom_cache_refs as usize', more=[(DEC, _FF_OLD2, _FF_NEW2)])
+canary('c14-flag-field-accessor-last-field', 'C14', DEC, _FF_OLD1, _FF_NEW1 % 'flags_len * 2 - 1', 'longatoms-wrong-field', more=[(DEC, _FF_OLD2, _FF_NEW2)])
